@@ -4,3 +4,6 @@ import Dm.Props.C07
 #print axioms Dm.Props.C07.default_only_for_unattributed
 #print axioms Dm.Props.C07.variant_spec_rejected
 #print axioms Dm.Props.C07.debug_enum_attr_rejected
+#print axioms Dm.Props.C07.sharedInfo_wrapping
+#print axioms Dm.Props.C07.wrapped_pointer_field_prints_held_pointer
+#print axioms Dm.Props.C07.wrapped_field_deref_iff_pointer
